@@ -405,7 +405,7 @@ def run_c14(ctx, spec):
     race_log = os.path.join(scratch, "racelog")
     histdir = os.path.join(scratch, "hist")
     os.makedirs(histdir, exist_ok=True)
-    env = {"GORACE": "halt_on_error=0 log_path=%s" % race_log, "VERIF_WORKERS": "1", "VERIF_CASE_TIMEOUT": "600", "VERIF_HISTDIR": histdir}
+    env = {"GORACE": "halt_on_error=0 log_path=%s" % race_log, "VERIF_WORKERS": "1", "VERIF_CASE_TIMEOUT": "240", "VERIF_HISTDIR": histdir}
     if only is not None:
         env["VERIF_ONLY"] = str(only)
         repeats = 1
